@@ -37,6 +37,10 @@ class Shim:
             w.append("double verif_iqabc(double qa, double qb, double qc, const double *p) { return Iqabc(qa, qb, qc%s); }" % ("," + refs if n else ""))
         elif self.mode == "qac":
             w.append("double verif_iqac(double qab, double qc, const double *p) { return Iqac(qab, qc%s); }" % ("," + refs if n else ""))
+        if self.mode == "qabc":
+            w.append("void verif_iqabc_n(int n, const double *qa, const double *qb, const double *qc, const double *p, double *out) { for (int i = 0; i < n; i++) out[i] = Iqabc(qa[i], qb[i], qc[i]%s); }" % ("," + refs if n else ""))
+        elif self.mode == "qac":
+            w.append("void verif_iqac_n(int n, const double *qab, const double *qc, const double *p, double *out) { for (int i = 0; i < n; i++) out[i] = Iqac(qab[i], qc[i]%s); }" % ("," + refs if n else ""))
         if self.volume_names:
             w.append("double verif_form_volume(const double *p) { return form_volume(%s); }" % vrefs)
         src = src + "\n".join(w) + "\n"
@@ -69,6 +73,23 @@ class Shim:
     def iqac(self, qab, qc, pars):
         v, p = self.pvec(pars)
         return self.lib.verif_iqac(float(qab), float(qc), p)
+
+    # array versions (one C loop instead of one ctypes call per point)
+    def iqabc_n(self, qa, qb, qc, pars):
+        dp = ct.POINTER(ct.c_double)
+        qa = np.ascontiguousarray(qa, "d"); qb = np.ascontiguousarray(qb, "d"); qc = np.ascontiguousarray(qc, "d")
+        out = np.empty(len(qa), "d")
+        v, p = self.pvec(pars)
+        self.lib.verif_iqabc_n(ct.c_int(len(qa)), qa.ctypes.data_as(dp), qb.ctypes.data_as(dp), qc.ctypes.data_as(dp), p, out.ctypes.data_as(dp))
+        return out
+
+    def iqac_n(self, qab, qc, pars):
+        dp = ct.POINTER(ct.c_double)
+        qab = np.ascontiguousarray(qab, "d"); qc = np.ascontiguousarray(qc, "d")
+        out = np.empty(len(qab), "d")
+        v, p = self.pvec(pars)
+        self.lib.verif_iqac_n(ct.c_int(len(qab)), qab.ctypes.data_as(dp), qc.ctypes.data_as(dp), p, out.ctypes.data_as(dp))
+        return out
 
 
 def _defined(src):
